@@ -475,6 +475,10 @@ fn fam_batch(r: &mut Rng) -> Result<(), String> {
     // receive: slashed / exact / generous
     let recv = match r.next() % 3 { 0 => u, 1 => u - u / 10, _ => u + 7 };
     if recv == 0 { return Ok(()); }
+    if r.next() % 2 == 0 {
+        // the reward collector's hook account delivers rewards first (outcome irrelevant here): it must still not pass as the staker below
+        let _ = execute(deps.as_mut(), env_at(unb - 2), mock_info(&hook_p(COLLECTOR, s.pp), &coins(1000, IBC_DENOM)), ExecuteMsg::ReceiveRewards {});
+    }
     if execute(deps.as_mut(), env_at(unb - 1), mock_info(&hook_p(STAKER, s.pp), &coins(recv, IBC_DENOM)), ExecuteMsg::ReceiveUnstakedTokens { batch_id: 1 }).is_ok() { return Err(format!("ReceiveUnstakedTokens accepted before the unbonding period elapsed; {ctx}")); }
     if execute(deps.as_mut(), env_at(unb), mock_info(&hook_p(COLLECTOR, s.pp), &coins(recv, IBC_DENOM)), ExecuteMsg::ReceiveUnstakedTokens { batch_id: 1 }).is_ok() { return Err(format!("ReceiveUnstakedTokens accepted from the reward collector's hook account; {ctx}")); }
     execute(deps.as_mut(), env_at(unb), mock_info(&hook_p(STAKER, s.pp), &coins(recv, IBC_DENOM)), ExecuteMsg::ReceiveUnstakedTokens { batch_id: 1 }).map_err(|e| format!("ReceiveUnstakedTokens refused: {e}; {ctx}"))?;
@@ -1059,7 +1063,10 @@ fn fam_config(r: &mut Rng) -> Result<(), String> {
     let mut deps = init(&s);
     let c0 = CONFIG.load(&deps.storage).unwrap();
     let newp = if s.pp == "milk" { "osmo" } else { "milk" };
-    let pc = |prefix: &str| UnsafeProtocolChainConfig { account_address_prefix: prefix.into(), ibc_token_denom: IBC_DENOM.into(), ibc_channel_id: "channel-9".into(), oracle_address: None, minimum_liquid_stake_amount: Uint128::new(5) };
+    // channel ids: well-formed ones must be accepted; whatever is accepted is used VERBATIM in the ibc-hooks derivation
+    let chan: String = r.pick(&["channel-9", "channel-9", "channel-0", "channel-18446744073709551615", "9", "123", "channel-channel-9"]).to_string();
+    let chan_ok = chan.strip_prefix("channel-").map_or(false, |d| !d.is_empty() && d.bytes().all(|b| b.is_ascii_digit()));
+    let pc = |prefix: &str| UnsafeProtocolChainConfig { account_address_prefix: prefix.into(), ibc_token_denom: IBC_DENOM.into(), ibc_channel_id: chan.clone(), oracle_address: None, minimum_liquid_stake_amount: Uint128::new(5) };
     let fc = |t: String| UnsafeProtocolFeeConfig { dao_treasury_fee: Uint128::new(500), treasury_address: Some(t) };
     match r.next() % 4 {
         0 => {
@@ -1070,20 +1077,34 @@ fn fam_config(r: &mut Rng) -> Result<(), String> {
                 return Err(format!("UpdateConfig stored treasury {:?} next to protocol prefix {:?}", c.protocol_fee_config.treasury_address, c.protocol_chain_config.account_address_prefix));
             }
             if CONFIG.load(&deps.storage).unwrap() != c0 { return Err("refused UpdateConfig changed storage".into()); }
-            execute(deps.as_mut(), mock_env(), mock_info(ADMIN, &[]), msg(b32(newp, 30))).map_err(|e| format!("UpdateConfig with prefix {newp} and a treasury under {newp} refused: {e}"))?;
+            let res = execute(deps.as_mut(), mock_env(), mock_info(ADMIN, &[]), msg(b32(newp, 30)));
+            if !chan_ok {
+                // a malformed channel id: refusal is right; acceptance is a validation failure, and the derivation check below still applies
+                if res.is_err() { return Ok(()); }
+            } else {
+                res.map_err(|e| format!("UpdateConfig with prefix {newp} and a treasury under {newp} refused: {e}"))?;
+            }
             let c = CONFIG.load(&deps.storage).unwrap();
-            if c.protocol_chain_config.account_address_prefix != newp || c.protocol_fee_config.treasury_address.as_ref().map(|x| x.to_string()) != Some(b32(newp, 30)) || c.protocol_chain_config.ibc_channel_id != "channel-9"
+            let mut problems: Vec<String> = vec![];
+            if !chan_ok { problems.push(format!("channel id {chan:?} was accepted by validation (UpdateConfig)")); }
+            if c.protocol_chain_config.account_address_prefix != newp || c.protocol_fee_config.treasury_address.as_ref().map(|x| x.to_string()) != Some(b32(newp, 30)) || c.protocol_chain_config.ibc_channel_id != chan
                 || c.native_chain_config != c0.native_chain_config || c.batch_period != c0.batch_period || c.liquid_stake_token_denom != c0.liquid_stake_token_denom || c.stopped != c0.stopped || !c.monitors.is_empty() {
-                return Err(format!("UpdateConfig (protocol + fee + monitors sections) stored {c:?} from {c0:?}"));
+                problems.push(format!("UpdateConfig (protocol + fee + monitors sections) stored {c:?} from {c0:?}"));
+            }
+            // the update replaced the monitor list by the empty list: the former monitor may no longer halt the contract
+            if execute(deps.as_mut(), mock_env(), mock_info(USER2, &[]), ExecuteMsg::CircuitBreaker {}).is_ok() {
+                problems.push("CircuitBreaker succeeded for an ordinary account: the monitor dismissed by the preceding UpdateConfig { monitors: [] }".into());
+                let mut cc = CONFIG.load(&deps.storage).unwrap(); cc.stopped = false; CONFIG.save(&mut deps.storage, &cc).unwrap();
             }
             // the cross-chain senders follow the new channel and prefix at once
             let st = STATE.load(&deps.storage).unwrap();
             if st.total_liquid_stake_token.u128() != 0 && in_dom(st.total_native_token.u128() + 1000, st.total_liquid_stake_token.u128()) {
                 let old_hook = hook_pc(COLLECTOR, s.pp, CHANNEL);
-                let new_hook = hook_pc(COLLECTOR, newp, "channel-9");
-                if execute(deps.as_mut(), mock_env(), mock_info(&old_hook, &coins(1000, IBC_DENOM)), ExecuteMsg::ReceiveRewards {}).is_ok() { return Err(format!("ReceiveRewards accepted from {old_hook}, the ibc-hooks account of the channel and prefix that UpdateConfig just replaced")); }
-                execute(deps.as_mut(), mock_env(), mock_info(&new_hook, &coins(1000, IBC_DENOM)), ExecuteMsg::ReceiveRewards {}).map_err(|e| format!("ReceiveRewards refused ({e}) for the ibc-hooks account of the newly configured channel and prefix"))?;
+                let new_hook = hook_pc(COLLECTOR, newp, &chan);
+                if execute(deps.as_mut(), mock_env(), mock_info(&old_hook, &coins(1000, IBC_DENOM)), ExecuteMsg::ReceiveRewards {}).is_ok() { problems.push(format!("ReceiveRewards accepted from {old_hook}, the ibc-hooks account of the channel and prefix that UpdateConfig just replaced")); }
+                else if let Err(e) = execute(deps.as_mut(), mock_env(), mock_info(&new_hook, &coins(1000, IBC_DENOM)), ExecuteMsg::ReceiveRewards {}) { problems.push(format!("ReceiveRewards refused ({e}) for the ibc-hooks account of the newly configured channel {chan:?} and prefix")); }
             }
+            if !problems.is_empty() { return Err(problems.join(" || ")); }
         }
         1 => {
             // only monitors + batch period
